@@ -55,7 +55,8 @@ theorem sortedListH_spec (ds : List (Desc α)) (h : Heap α) (input : Slice)
     have hemp : h.read { arr := input.arr, off := input.off, len := 0, cap := 0 } = [] := by simp [Heap.read]
     simp only [sortedListH, Heap.append, Slice.emptyNoCap, Nat.zero_add, hpos, if_false, hemp, List.nil_append, sortH]
     generalize h.read input = xs
-    have hrd : (h ++ [xs]).read ⟨h.length, 0, xs.length, xs.length⟩ = xs := by
+    have hrd : ∀ c, (h ++ [xs]).read ⟨h.length, 0, xs.length, c⟩ = xs := by
+      intro c
       simp [Heap.read, List.getD_eq_getElem?_getD]
     rw [hrd]
     exact ⟨write_fresh_read h xs _ _ (sort_length _ xs), fun s' hs' => write_fresh_read_old h xs _ _ s' hs'⟩
